@@ -1,5 +1,5 @@
 \* Sierra class across the 0.14.1 switch with one L1-handler transaction, <= 4 blocks
-\* measured: 658 413 distinct states, ~3 min on 4 workers
+\* measured: 316 510 distinct states, 949 527 generated, ~2.5 min on 4 workers
 CONSTANTS
   Users = {"c1"}
   Sys = {}
